@@ -428,7 +428,7 @@ func Main(args []string) int {
 	} else if tier == "thorough" {
 		r.Budget = 25 * time.Minute
 	} else {
-		r.Budget = 4 * time.Minute
+		r.Budget = 5 * time.Minute
 	}
 	pool, err := NewPool(NumWorkers())
 	if err != nil {
